@@ -149,7 +149,11 @@ class Recogniser:
         if tok.kind == gt.LP:
             v = self.seq(gt.LP, gt.RP, gt.COMMA)
         elif tok.kind == gt.LB:
-            v = frozenset_safe(self.seq(gt.LB, gt.RB, gt.COMMA))
+            members = self.seq(gt.LB, gt.RB, gt.COMMA)
+            if self.reader in ODL and any(
+                    isinstance(x, (list, frozenset)) for x in members):
+                raise Ill("odl-set-holds-non-scalar")
+            v = frozenset_safe(members)
         elif tok.kind in (gt.VAL, gt.NAME):
             if "value" not in role(tok, self.reader):
                 raise Ill(f"expected-value-got-{tok.kind}")
